@@ -526,14 +526,19 @@ def run_seed(args: dict, sandbox: str) -> dict:
     spec["regen_over_clean"] = a.random() < 0.2
     if spec["regen_over_clean"]:
         spec["meta"] = a.choice(["none", "poetry", "pdm", "setup"])
+        # ... in half of them the earlier generation of D had DIED on the way (crash / kill before a random file-system call)
+        if a.random() < 0.5:
+            spec["regen_crash"] = {"kfrac": a.random(), "hard": a.random() < 0.5, "torn": a.choice([None, None, 0.5])}
+    if a.random() < 0.06:
+        spec["post_hooks"] = a.choice([["false"], ["touch hook1.txt", "false"], ["false", "touch hook2.txt"]])  # a hook that fails: an ERROR-level entry next to the warnings
     res = run_spec({"spec": spec}, sandbox)
     if not res.get("violations"):
         res.pop("spec", None)
     return res
 
 
-def _generate(doc: dict, spec: dict, sandbox: str, tag: str, over: str | None = None) -> dict:
-    from sim import genrun
+def _generate(doc: dict, spec: dict, sandbox: str, tag: str, over: str | None = None, crash: dict | None = None, clean_doc: dict | None = None) -> dict:
+    from sim import fsseam, genrun
 
     base = os.path.join(sandbox, tag)
     os.makedirs(base)
@@ -544,7 +549,23 @@ def _generate(doc: dict, spec: dict, sandbox: str, tag: str, over: str | None = 
     out = os.path.join(base, "gen", f"pkg_{tag}")
     os.makedirs(os.path.dirname(out))
     extra = []
-    if over is not None:
+    if over is not None and crash is not None and clean_doc is not None:
+        # the existing tree is what a generation of D that died half-way left behind
+        dp0 = os.path.join(base, "doc_clean.json")
+        with open(dp0, "w") as f:
+            json.dump(clean_doc, f)
+        probe = fsseam.FsSeam(os.path.dirname(out))
+        scratch = out + "_count"
+        genrun.run_cli(["generate", "--path", dp0, "--config", cfg, "--meta", spec.get("meta", "none"), "--output-path", scratch], around=lambda: probe)
+        import shutil
+
+        shutil.rmtree(scratch, ignore_errors=True)
+        k = int(float(crash.get("kfrac") or 0.0) * probe.k)
+        seam = fsseam.FsSeam(os.path.dirname(out), crash_at=k, torn=crash.get("torn"), hard=bool(crash.get("hard")))
+        genrun.run_cli(["generate", "--path", dp0, "--config", cfg, "--meta", spec.get("meta", "none"), "--output-path", out], around=lambda: seam)
+        os.makedirs(out, exist_ok=True)
+        extra = ["--overwrite"]
+    elif over is not None:
         import shutil
 
         shutil.copytree(over, out, symlinks=True)  # regenerate over an existing tree
@@ -562,7 +583,8 @@ def run_spec(args: dict, sandbox: str) -> dict:
     log = [f"spec {hashlib.sha256(json.dumps(spec, sort_keys=True).encode()).hexdigest()[:16]} hashseed={os.environ.get('PYTHONHASHSEED')}"]
     clean = _generate(doc, spec, sandbox, "clean")
     cres = clean["res"]
-    if cres["exception"] or cres["diagnostics"] is None or len(cres["diagnostics"]) > 0 or cres["exit_code"] != 0:
+    c_hook = [d for d in (cres["diagnostics"] or []) if d["level"] == "ERROR" and (d["header"] or "").endswith(" failed")]
+    if cres["exception"] or cres["diagnostics"] is None or len(cres["diagnostics"]) > len(c_hook) or (cres["exit_code"] != 0) != bool(c_hook):
         return {"violations": [], "skipped": "twin-has-diagnostics", "faults": {}, "probes": {"twin-discarded": 1}, "states": [], "nontrivial_keys": [], "fingerprint": rng.fingerprint(log), "sim_time": 0.0}
     d2 = doc
     cone: set[str] = set()
@@ -594,8 +616,15 @@ def run_spec(args: dict, sandbox: str) -> dict:
     elif diags is None:
         viol("no-diagnostics-object", "", "generate did not return")
     else:
-        errors = [d for d in diags if d["level"] == "ERROR"]
-        if errors or fres["exit_code"] != 0:
+        hook_errors = [d for d in diags if d["level"] == "ERROR" and (d["header"] or "").endswith(" failed")]
+        errors = [d for d in diags if d["level"] == "ERROR" and d not in hook_errors]
+        printed = (fres.get("stdout") or "") + (fres.get("stderr") or "")
+        for d in diags:
+            h = (d["header"] or "").strip()
+            if h and h not in printed:
+                viol("diagnostic-not-printed", d["level"], f"diagnostic {h!r} was returned by generate() but is missing from what the command printed")
+                break
+        if errors or (fres["exit_code"] != 0) != bool(hook_errors):
             viol("bad-piece-rejected-whole-document", locus0, f"exit={fres['exit_code']} error diagnostics={[d['header'] for d in errors][:3]}")
         # (a bad path-item parameter that EVERY operation overrides is never used: nothing depends on it, nothing to report)
         if applied and not diags and any(names or f_["pos"] != "path-item-shadowed" for f_, names in must_name):
@@ -663,8 +692,12 @@ def run_spec(args: dict, sandbox: str) -> dict:
             rel0, tgt0 = dangling[0]
             viol("survivor-refers-to-removed", f"{_fileclass(rel0)}->{_fileclass(tgt0)}", f"{rel0} imports {tgt0!r} which does not exist in out(D') (all: {dangling[:4]})")
         if spec.get("regen_over_clean") and t1:
-            regen = _generate(d2, spec, sandbox, "regen", over=clean["out"])
+            regen = _generate(d2, spec, sandbox, "regen", over=clean["out"], crash=spec.get("regen_crash"), clean_doc=doc)
             t2 = regen["tree"]
+            dg = lambda ds: sorted((d["level"], d["header"] or "", d["detail"] or "") for d in (ds or []))  # noqa: E731
+            if not regen["res"]["exception"] and dg(regen["res"]["diagnostics"]) != dg(diags):
+                lost = [x for x in dg(diags) if x not in dg(regen["res"]["diagnostics"])]
+                viol("diagnostics-differ-on-regeneration", "lost" if lost else "new", f"the same document D' generated a second time in this process reports different diagnostics: lost={[x[1] for x in lost][:4]} (first: {len(diags)}, second: {len(regen['res']['diagnostics'] or [])})")
             if regen["res"]["exception"]:
                 viol("crash-on-bad-piece", f"{regen['res']['exception']}@{genrun.tb_locus(regen['res']['tb'])}", f"regeneration over the clean tree: unhandled {regen['res']['exception']}: {regen['res']['exception_msg']}")
             elif t2 != t1:
@@ -805,6 +838,10 @@ def shrink_candidates(spec: dict) -> list[dict]:
     if spec.get("post_hooks"):
         s = copy.deepcopy(spec)
         s["post_hooks"] = []
+        out.append(s)
+    if spec.get("regen_crash"):
+        s = copy.deepcopy(spec)
+        s["regen_crash"] = None
         out.append(s)
     if spec.get("regen_over_clean"):
         s = copy.deepcopy(spec)
